@@ -29,7 +29,8 @@ def gen_case(rng, thorough=False):
     cutoff = rng.choice([rng.choice([1.0, 2.5, 6.5, 10.0, 12.0, 0.3, 9.99, 8.0]), round(rng.uniform(0.5, 15.0), rng.choice([1, 2, 3])), rng.uniform(0.5, 15.0)])
     nr = rng.choice([3, 4, 5, 6, 7, rng.randint(3, 80), rng.randint(3, 80), rng.choice([30, 54, 94, 100, 101])])
     if thorough and rng.random() < 0.1: nr = rng.randint(200, 1500)
-    return {'pots': pots, 'cutoff': cutoff, 'nr': nr, 'route': rng.choice(['class', 'writePotentials']), 'labels': srt}
+    # some potentials are exactly zero at some grid points while their slope there is not (a node of the potential on the grid)
+    return {'pots': pots, 'cutoff': cutoff, 'nr': nr, 'route': rng.choice(['class', 'writePotentials']), 'labels': srt, 'zero_every': rng.choice([None, None, None, 2, 3, 7])}
 
 def build_potentials(case, rec):
     from atsim.potentials import Potential
@@ -38,7 +39,7 @@ def build_potentials(case, rec):
 def run_recorded(case, fault_at=None):
     from atsim.potentials import writePotentials
     from atsim.potentials.pair_tabulation import LAMMPS_PairTabulation
-    rec = layout.Recorder(); rec.fault_at = fault_at
+    rec = layout.Recorder(); rec.fault_at = fault_at; rec.zero_every = case.get('zero_every')
     pots = build_potentials(case, rec)
     out = layout.RecFile(rec)
     if case['route'] == 'writePotentials':
